@@ -4,7 +4,7 @@
    properties with a <name>Map spelling) and by the literal codecs of streams/values (Streams/CodecInst.v). *)
 From Coq Require Import String List Bool Arith ZArith.
 From Verif Require Import Base.ListX Base.Json Vocab.Tables Gen.TablesShipped Streams.Literals Streams.Codec Streams.CodecInst.
-From Verif Require Import Proofs.CodecProofs Proofs.IdemProofs Proofs.TimeIdemProofs.
+From Verif Require Import Proofs.CodecProofs Proofs.IdemProofs Proofs.TimeIdemProofs Proofs.DocIdemProofs.
 Import ListNotations.
 Open Scope string_scope.
 Open Scope list_scope.
@@ -127,6 +127,28 @@ Theorem C01_overflowing_duration_kept :
   norm "@duration" (JStr "P400Y") = None /\ norm "@duration" (JStr "P292Y") = Some (JStr "P292Y").
 Proof. exact overflowing_duration_kept. Qed.
 
+(* ---- the same for whole documents: rt_shipped = pick the type, remove the top-level @context, rt_type, delete nested
+   @context through maps (what Serialize does).  doc_ok (boolean): the members are `good` and no known natural-language-like
+   member holds an object carrying a nested @context unless its chain names a type (cgood).  Nothing is assumed. ---- *)
+Theorem C01_doc_idempotent_shipped : forall doc d1, doc_ok doc = true -> rt_shipped doc = Some d1 -> rt_shipped d1 = Some d1.
+Proof. exact rt_shipped_idempotent. Qed.
+(* ... and doc_ok is needed - REFUTED clause (finding F24, replayed on the real code: the same three documents): an object
+   with a nested @context that is no string on a natural-language property is kept on the first pass, loses its @context in
+   Serialize, and is a language map - renamed nameMap - on the second *)
+Theorem C01_context_in_language_map_refuted :
+  rt_shipped ctx_doc = Some (JObj [("type", JStr "Note"); ("name", JObj [("en", JStr "x")])]) /\
+  rt_shipped (JObj [("type", JStr "Note"); ("name", JObj [("en", JStr "x")])]) = Some (JObj [("type", JStr "Note"); ("nameMap", JObj [("en", JStr "x")])]) /\
+  doc_ok ctx_doc = false.
+Proof. exact context_in_language_map_not_idempotent. Qed.
+(* exactness for whole documents: a canonical document without nested @context is its own round trip, modulo the top-level
+   @context that Serialize rebuilds (C01_context_exact) *)
+Theorem C01_doc_roundtrip : forall T P url_ok norm_iri norm n m row,
+  type_of_doc T m = Some row ->
+  cmembers P url_ok norm_iri norm (S n) row (remove_key "@context" m) ->
+  clean_maps 16 (remove_key "@context" m) = remove_key "@context" m ->
+  rt_doc T P url_ok norm_iri norm (S n) (JObj m) = Some (JObj (remove_key "@context" m)).
+Proof. exact rt_doc_identity. Qed.
+
 Print Assumptions C01_roundtrip.
 Print Assumptions C01_members_kept.
 Print Assumptions C01_both_spellings_refuted.
@@ -139,3 +161,6 @@ Print Assumptions C01_good_preserved_shipped.
 Print Assumptions C01_duration_idem.
 Print Assumptions C01_time_literals_idem.
 Print Assumptions C01_overflowing_duration_kept.
+Print Assumptions C01_doc_idempotent_shipped.
+Print Assumptions C01_context_in_language_map_refuted.
+Print Assumptions C01_doc_roundtrip.
